@@ -1,53 +1,57 @@
 #!/usr/bin/env python3
-"""seedtest.py [seed names...]: for every seeded defect under /verif/seeded apply it to a scratch copy of /repo's working tree,
-run the property's deciding check (govc) and the real-code harness (quick) there, and report which of them detects it.
-Writes /verif/seeded/RESULTS.json."""
+"""seedtest.py [seed names...]: for every seeded change under <verif>/seeded apply it to a scratch copy of the repository's
+working tree, run the property's registered quick check there (VERIF_REPO=<copy>), and report what detects it:
+  govc      a named obligation failed (FAILED lines)
+  ungen     a function left the generator's subset and the R4 fallback harness found a failing input
+  harness   only the bounded real-code harness found a failing input
+  miss      the check exited 0
+Writes <verif>/seeded/RESULTS.json. Paths: <verif> is the directory above this file; the repository is $SEED_REPO,
+$VP_RUN_REPO or /repo."""
 import sys,os,subprocess,shutil,tempfile,json,glob,concurrent.futures,time
+VERIF=os.path.dirname(os.path.dirname(os.path.abspath(__file__)))
+REPO=os.environ.get('SEED_REPO') or os.environ.get('VP_RUN_REPO') or '/repo'
 ENV=dict(os.environ,GOFLAGS='-mod=mod',GOPROXY='off',GOSUMDB='off',GOTOOLCHAIN='local',GOVC_NO_CONCRETISE='1')
-names=sys.argv[1:] or sorted(os.path.basename(d) for d in glob.glob('/verif/seeded/C*'))
+names=sys.argv[1:] or sorted(os.path.basename(d) for d in glob.glob(VERIF+'/seeded/C*'))
+claimed=set()
+try: claimed={c['property_id'] for c in json.load(open(VERIF+'/MANIFEST.json'))['checks']}
+except Exception: pass
 def one(name):
-    sd=os.path.join('/verif/seeded',name)
+    sd=os.path.join(VERIF,'seeded',name)
     meta=json.load(open(os.path.join(sd,'meta.json')))
     prop=meta.get('property',name.split('_')[0])
     d=tempfile.mkdtemp(prefix='seedt-')
-    res={'seed':name,'property':prop}
+    res={'seed':name,'property':prop,'claimed':prop in claimed,'title':meta.get('title','')}
     try:
-        subprocess.check_call(['rsync','-a','--exclude','.git','/repo/',d+'/'])
-        r=subprocess.run(['git','apply','--unsafe-paths','--directory='+d,os.path.join(sd,'patch.diff')],cwd='/',capture_output=True,text=True)
+        subprocess.check_call(['rsync','-a','--exclude','.git',REPO.rstrip('/')+'/',d+'/'])
+        r=subprocess.run(['patch','-p1','-s','-i',os.path.join(sd,'patch.diff')],cwd=d,capture_output=True,text=True)
         if r.returncode!=0:
-            r=subprocess.run(['patch','-p1','-s','-i',os.path.join(sd,'patch.diff')],cwd=d,capture_output=True,text=True)
-            if r.returncode!=0:
-                res['error']='patch does not apply: '+(r.stdout+r.stderr)[-300:]; return res
+            res['error']='patch does not apply: '+(r.stdout+r.stderr)[-300:]; return res
         t0=time.time()
-        g=subprocess.run(['/verif/bin/govc','-repo',d,'-prop',prop,'-noevidence'],capture_output=True,text=True,env=ENV,timeout=1500)
-        res['govc_exit']=g.returncode
-        res['govc_failed']=[l.split(':')[0].replace('FAILED ','') for l in g.stdout.split('\n') if l.startswith('FAILED')][:8]
-        res['govc_ungenerated']=[l[:160] for l in g.stdout.split('\n') if l.startswith('UNGENERATED')][:4]
-        res['govc_s']=round(time.time()-t0,1)
-        t0=time.time()
-        env=dict(ENV,VERIF_REPO=d,VERIF_BOUND='quick')
-        envf=os.path.join('/verif/replay',prop,'env')
-        if os.path.exists(envf):
-            for l in open(envf):
-                if '=' in l: k,v=l.strip().split('=',1); env[k]=v
-        h=subprocess.run(['/verif/replay/run.sh',prop],capture_output=True,text=True,env=env,timeout=900)
-        res['harness_exit']=h.returncode
-        res['harness_what']=h.stdout[:300]
-        res['harness_s']=round(time.time()-t0,1)
+        g=subprocess.run([VERIF+'/check',prop,'quick'],capture_output=True,text=True,env=dict(ENV,VERIF_REPO=d),timeout=2400,cwd=VERIF)
+        out=g.stdout.split('\n')
+        res['exit']=g.returncode
+        res['failed_obligations']=sorted({l.split(':')[0].replace('FAILED ','').replace('undischarged ','').replace('refuted ','') for l in out if l.startswith('FAILED')})[:10]
+        res['ungenerated']=[l[:200] for l in out if l.startswith('UNGENERATED')][:4]
+        res['harness']=[l[:300] for l in out if l.startswith('HARNESS:')][:1]
+        res['violation_lines']=len([l for l in out if l.startswith('VIOLATION')])
+        res['seconds']=round(time.time()-t0,1)
     except subprocess.TimeoutExpired:
         res['error']='timeout'
     finally:
         shutil.rmtree(d,ignore_errors=True)
-    res['detected_by_govc']=res.get('govc_exit')==1
-    res['detected_by_harness']=res.get('harness_exit')==10
+    if res.get('exit')==1 and res.get('failed_obligations'): res['detected_by']='govc'
+    elif res.get('exit')==1 and res.get('ungenerated') and res.get('harness'): res['detected_by']='ungen+harness'
+    elif res.get('exit')==1 and res.get('harness'): res['detected_by']='harness'
+    elif res.get('exit')==0: res['detected_by']='miss'
+    else: res['detected_by']='error'
     return res
 out=[]
-with concurrent.futures.ThreadPoolExecutor(max_workers=int(os.environ.get('SEEDTEST_PAR','3'))) as ex:
+with concurrent.futures.ThreadPoolExecutor(max_workers=int(os.environ.get('SEEDTEST_PAR','2'))) as ex:
     for r in ex.map(one,names):
         out.append(r)
-        print('%-8s %-4s govc=%s harness=%s %s %s'%(r['seed'],r['property'],'DETECT' if r.get('detected_by_govc') else ('ungen' if r.get('govc_ungenerated') else 'miss'),'DETECT' if r.get('detected_by_harness') else 'miss',';'.join(r.get('govc_failed',[])[:2])[:150],r.get('error','')),flush=True)
+        print('%-8s %-4s %-14s %5ss %s %s'%(r['seed'],r['property'],r['detected_by'],r.get('seconds','-'),';'.join(r.get('failed_obligations',[])[:2])[:160],r.get('error','')),flush=True)
 old={}
-try: old={x['seed']:x for x in json.load(open('/verif/seeded/RESULTS.json'))}
+try: old={x['seed']:x for x in json.load(open(VERIF+'/seeded/RESULTS.json'))}
 except Exception: pass
 for r in out: old[r['seed']]=r
-json.dump(sorted(old.values(),key=lambda x:x['seed']),open('/verif/seeded/RESULTS.json','w'),indent=1)
+json.dump(sorted(old.values(),key=lambda x:x['seed']),open(VERIF+'/seeded/RESULTS.json','w'),indent=1)
